@@ -25,7 +25,7 @@ from engines import history
 ENGINE = 'optsim'
 FEATS = ['conic', 'asphere', 'poly', 'cheby', 'tilt', 'decenter', 'glass',
          'abbe', 'finite_obj', 'multi_wl', 'planes', 'stop_any', 'aperture',
-         'fno', 'mirror']
+         'fno', 'mirror', 'shared_material']
 FRONTS = ['generic', 'generic_m', 'lsq', 'da', 'de1', 'dew']
 
 
@@ -118,6 +118,8 @@ class Sim:
         if f0 is None or not math.isfinite(f0):
             raise NotApplicable('merit function undefined at the start')
         self.optimizers = []       # (front, object, snapshot stack)
+        self.hist_targets = [o['target'] for o in self.hist['operands']]
+        self.hist_weights = [o['weight'] for o in self.hist['operands']]
         # trigger of a recorded finding: an index variable on a medium that
         # is not an ideal (constant-index, non-absorbing) one.  Writing such
         # a variable replaces the medium by IdealMaterial(n), which changes
@@ -326,7 +328,7 @@ class Sim:
         self.stats['oracle_checks'] += 1
         # round-off floor of the merit function itself: df ~ 2 w^2 |v-t| dv
         # with dv ~ 1e-10 x the length scale of the lens
-        wmax = max(abs(o['weight']) for o in self.hist['operands'])
+        wmax = max(abs(w_) for w_ in self.hist_weights)
         noise = 1e-10 * math.sqrt(max(f0, 0.0)) * wmax * \
             (1 + self.w.model.zscale)
         if inside and not (rf <= f0 * (1 + 1e-9) + noise):
@@ -408,6 +410,9 @@ class Sim:
             self.probe('undo_on_empty_stack')
             return
         want = slot[2].pop()
+        if want is None:
+            self.probe('undo_after_hand_edit_not_compared')
+            return
         got = self.snapshot()
         self.stats['oracle_checks'] += 1
         ok, where = same(got, want, rtol=1e-12, atol=self.ztol())
@@ -421,6 +426,55 @@ class Sim:
                             f'after undo() the lens differs from its state '
                             f'before the run: {where}')
         self.probe('undo_checked')
+
+    def do_edit(self, st):
+        """A hand edit of a quantity that is not a variable (between runs)."""
+        m = self.w.model
+        op = dict(st['edit'])
+        kind = op['op']
+        attr = {'set_radius': 'radius', 'set_conic': 'conic',
+                'set_thickness': 'thickness'}[kind]
+        k = m.idx(op['k'], 1, m.n - 2)
+        if any(s['type'] == attr and s['k'] == k for s in self.vspecs) or \
+                any(p['attr'] == attr and k in (p['dst'],)
+                    for p in m.pickups) or \
+                (attr == 'thickness' and any(s['k'] - 1 == k
+                                             for s in m.solves)):
+            raise NotApplicable('quantity is controlled by the problem')
+        if attr == 'radius' and m.is_plane(k):
+            raise NotApplicable('plane')
+        with quiet(), warnings.catch_warnings():
+            warnings.simplefilter('ignore')
+            if kind == 'set_radius':
+                self.lens.set_radius(op['v'], k)
+                m.set_radius(k, op['v'])
+            elif kind == 'set_conic':
+                if m.is_plane(k):
+                    raise NotApplicable('plane')
+                self.lens.set_conic(op['v'], k)
+                m.set_conic(k, op['v'])
+            else:
+                self.lens.set_thickness(op['v'], k)
+                m.set_thickness(k, op['v'])
+            self.lens.update()
+        # undo() cannot take back a hand edit: earlier snapshots no longer
+        # describe "the state before the run"
+        for slot in self.optimizers:
+            if slot is not None:
+                slot[2] = [None] * len(slot[2])
+        self.stats['state_changes'] += 1
+        self.probe('hand_edit_between_runs')
+
+    def do_retarget(self, st):
+        j = st['operand'] % len(self.problem.operands)
+        o = self.problem.operands[j]
+        if 'target' in st:
+            o.target = st['target']
+            self.hist_targets[j] = st['target']
+        if 'weight' in st:
+            o.weight = st['weight']
+            self.hist_weights[j] = st['weight']
+        self.probe('operand_retargeted')
 
     def do_poke(self, st):
         """handle faithfulness: setting then reading returns the value set"""
@@ -512,10 +566,11 @@ class Sim:
         try:
             with quiet(), warnings.catch_warnings():
                 warnings.simplefilter('ignore')
-                for spec in self.hist['operands']:
+                for j, spec in enumerate(self.hist['operands']):
                     fn = operand_registry.get(spec['type'])
                     v = float(fn(**operand_input(self.lens, spec)))
-                    tot += (spec['weight'] * (v - spec['target'])) ** 2
+                    tot += (self.hist_weights[j] *
+                            (v - self.hist_targets[j])) ** 2
         except Exception:
             raise NotApplicable('operand raised')
         ss = self.merit()
@@ -639,6 +694,17 @@ def gen_variable(ch, m):
         hi = ch.rounded(cur + span * ch.uniform(0.2, 1.0), 6)
         if t == 'index':
             lo = max(lo, 1.0)
+        if t != 'index' and ch.chance(0.15):
+            # a bound of exactly zero (int or float) is a legitimate bound
+            z = ch.pick([0, 0.0], tag='zero')
+            if cur > 0:
+                lo = z
+            elif cur < 0:
+                hi = z
+            elif ch.chance(0.5):
+                lo = z
+            else:
+                hi = z
         spec['min'], spec['max'] = lo, hi
         if ch.chance(0.1):
             spec[ch.pick(['min', 'max'])] = None
@@ -739,7 +805,8 @@ def run_one(prop, run_seed, run_index, cfg):
     nv = max(1, len(variables))
     for _ in range(ch.randint(2, cfg.get('max_hist', 7))):
         k = ch.weighted([('optimize', 5), ('undo', 2.5), ('poke', 1),
-                         ('bounds', 1), ('merit', 1)], tag='step')
+                         ('bounds', 1), ('merit', 1), ('edit', 1),
+                         ('retarget', 0.7)], tag='step')
         if k == 'optimize':
             bounded_all = all(v.get('min') is not None and
                               v.get('max') is not None for v in variables)
@@ -747,8 +814,15 @@ def run_one(prop, run_seed, run_index, cfg):
             if bounded_all:
                 fronts += [('da', 1.5), ('de1', 1.5), ('dew', 2.5)]
             front = ch.weighted(fronts, tag='front')
+            prev = [s_ for s_ in steps if s_['op'] == 'optimize']
+            if prev and ch.chance(0.4):
+                # the same optimiser object again (optimise/undo/optimise)
+                front = prev[-1]['front']
+                if front in ('da', 'de1', 'dew') and not bounded_all:
+                    front = 'lsq'
             st = {'op': 'optimize', 'front': front, 'driver': driver,
-                  'opt': ch.randint(0, 1)}
+                  'opt': prev[-1]['opt'] if prev and ch.chance(0.6)
+                  else ch.randint(0, 1)}
             if front == 'generic_m':
                 # BFGS / CG ignore bounds (scipy warns): only without bounds
                 any_bound = any(v.get('min') is not None or
@@ -766,6 +840,26 @@ def run_one(prop, run_seed, run_index, cfg):
             steps.append(st)
         elif k == 'undo':
             steps.append({'op': 'undo', 'opt': ch.randint(0, 1)})
+        elif k == 'edit':
+            kind = ch.pick(['set_radius', 'set_conic', 'set_thickness'])
+            kk = ch.randint(1, max(1, m.n - 2))
+            cur = {'set_radius': m.surfs[kk]['radius'],
+                   'set_conic': m.surfs[kk]['conic'] or 0.0,
+                   'set_thickness': m.surfs[kk]['t']}[kind]
+            if not math.isfinite(cur):
+                cur = 100.0
+            delta = {'set_radius': 0.05 * abs(cur) + 1, 'set_conic': 0.2,
+                     'set_thickness': 0.5}[kind]
+            steps.append({'op': 'edit', 'edit': {
+                'op': kind, 'k': kk,
+                'v': ch.rounded(cur + ch.uniform(-1, 1) * delta, 6)}})
+        elif k == 'retarget':
+            st = {'op': 'retarget', 'operand': ch.randint(0, 3)}
+            if ch.chance(0.7):
+                st['target'] = ch.rounded(ch.uniform(-50, 150), 4)
+            else:
+                st['weight'] = ch.pick([0.5, 2.0, 1, 3.0])
+            steps.append(st)
         elif k == 'poke':
             j = ch.randint(0, nv - 1)
             steps.append({'op': 'poke', 'var': j,
